@@ -126,6 +126,14 @@ pub fn build(mut t: Tape, game: u64) -> Built {
             add(&mut t, &mut st, "bat_gamemode_s", gm);
             let mp = gen::string(&mut t, &gen::StrOpts::plain(20));
             add(&mut t, &mut st, "bat_map_s", mp);
+            // other rules of the game's own name space are ordinary rules and stay where they are
+            for k in ["bat_region_s", "bat_version_s", "bat_", "bat_max_players", "BAT_NAME_S", "bat_name_s2"] {
+                if t.draw(DATA, 3) == 0 {
+                    let v = gen::string(&mut t, &gen::StrOpts::plain(12));
+                    st.rules.retain(|(kk, _)| kk != k);
+                    st.rules.push((k.to_string(), v));
+                }
+            }
             st.fit(false);
             let call = mk(Entry::Battalion, 7780, None);
             // expected: the generic game response with the overrides applied and the override rules removed
@@ -161,7 +169,7 @@ pub fn build(mut t: Tape, game: u64) -> Built {
         }
         _ => {
             let st = EcoState::generate(&mut t);
-            let level = t.draw(CFG, 3) as u8;
+            let level = t.draw(CFG, 4) as u8;
             let call = mk(Entry::Eco { level }, 3001, if level == 0 { None } else { gen::timeouts_long(&mut t, 0) });
             let expected = st.expected();
             let detail = json!({"game": "eco", "players": st.info["OnlinePlayersNames"].as_array().map(Vec::len), "body_len": st.body().len()});
@@ -170,7 +178,7 @@ pub fn build(mut t: Tape, game: u64) -> Built {
             let transport = t.draw(CFG, 3);
             if transport == 0 {
                 let mut w = World::new(t);
-                w.http = Some(Box::new(EcoHttp { st, expect_host: SERVER_IP.to_string(), expect_port: port.unwrap_or(3001), requests: Vec::new(), fail: None }));
+                w.http = Some(Box::new(EcoHttp { st, expect_host: if level == 3 { crate::entry::ECO_HOST_NAME.to_string() } else { SERVER_IP.to_string() }, expect_port: port.unwrap_or(3001), requests: Vec::new(), fail: None }));
                 return Built { call, world: w, expected, family: "eco".into(), normalise: None, detail };
             }
             let body = st.body();
